@@ -79,12 +79,18 @@ def _mods():
 
 
 # ------------------------------------------------------------------ values
+# StateStore.tla JsonScalar: scalar ids that stand for JSON values other than small integers
+SPECIAL = {60: None, 61: True, 62: 1.5, 63: "s", 64: False, 65: ""}
+_SPECIAL_BACK = {(type(v).__name__, v): k for k, v in SPECIAL.items()}
+
+
 def enc(v):
     """python value -> tree"""
-    if isinstance(v, bool) or v is None:
-        return {"t": "u", "v": repr(v)}
+    if v is None or isinstance(v, (bool, float, str)):
+        k = _SPECIAL_BACK.get((type(v).__name__, v))
+        return {"t": "s", "v": k} if k is not None else {"t": "u", "v": repr(v)[:60]}
     if isinstance(v, int):
-        return {"t": "s", "v": v} if 0 <= v < 2 ** 31 else {"t": "u", "v": repr(v)}
+        return {"t": "s", "v": v} if 0 <= v < 2 ** 31 and v not in SPECIAL else {"t": "u", "v": repr(v)}
     if isinstance(v, dict):
         return {"t": "m", "m": {_key(k): enc(x) for k, x in v.items()}}
     if isinstance(v, (list, tuple)):
@@ -101,7 +107,7 @@ def dec(t):
     """tree -> fresh python value (never shared between calls)"""
     k = t["t"]
     if k == "s":
-        return t["v"]
+        return SPECIAL[t["v"]] if t["v"] in SPECIAL else t["v"]
     if k == "m":
         m = t["m"]
         return {} if isinstance(m, list) else {kk: dec(x) for kk, x in m.items()}
